@@ -23,7 +23,7 @@ RULE = (
     "instance; non-trivial = tree with >= 3 nodes; distinct = distinct tree fingerprints"
 )
 ASSUMPTIONS = ["all nodes of a tree are registered (handles are held) and no object occurs twice, as the statement requires"]
-MUST_SEE = ["absolute_after_relative", "both_foreign_keyerrors", "twin_pairs_in_tree", "foreign_twins", "non_ancestor_pairs", "index_ge_10", "root_relative_valueerror", "keyerrors", "subtree_trees", "exact_tuple_hits"]
+MUST_SEE = ["interleaved_ancestor_chains", "relative_depth_unchecked", "absolute_after_relative", "both_foreign_keyerrors", "twin_pairs_in_tree", "foreign_twins", "non_ancestor_pairs", "index_ge_10", "root_relative_valueerror", "keyerrors", "subtree_trees", "exact_tuple_hits"]
 CONFIG = {
     "quick": {"shards": 16, "trees": 400, "max_nodes": 28, "watchdog_s": 300},
     "thorough": {"shards": 32, "trees": 600, "max_nodes": 45, "watchdog_s": 3000},
@@ -202,6 +202,14 @@ def run_shard(ctx):
             except Exception as e:  # noqa: BLE001
                 r = ("other", type(e).__name__)
             if is_anc:
+                # the relative depth to a true ancestor is the same whether or not the ancestor check is asked for
+                ctx.count("relative_depth_unchecked")
+                try:
+                    d2 = t.get_depth(nodes[i], relative_to=nodes[j], check_ancestor=False)
+                except Exception as e:  # noqa: BLE001
+                    d2 = type(e).__name__
+                if d2 != pn.depth - pm.depth:
+                    bad("relative_depth", "relative get_depth with check_ancestor=False wrong for a true ancestor", node=i, relative_to=j, got=d2, exp=pn.depth - pm.depth)
                 exp_r = ("ok", pn.depth - pm.depth)
             else:
                 exp_r = ("ValueError",)
@@ -210,6 +218,23 @@ def run_shard(ctx):
                     ctx.count("root_relative_valueerror")
             if r != exp_r:
                 bad("relative_depth", "relative get_depth wrong", node=i, relative_to=j, got=r, exp=exp_r)
+        # ancestor chains consumed in lock-step, and queries made while a chain is being consumed
+        if n >= 3:
+            ia, ib = rng.sample(range(n), 2)
+            ea, eb = [id(obj[id(q)]) for q in chain[id(pos[ia])]], [id(obj[id(q)]) for q in chain[id(pos[ib])]]
+            ga, gb = [], []
+            for xa, xb in zip(t.get_ancestors(nodes[ia]), t.get_ancestors(nodes[ib])):
+                ga.append(id(xa))
+                gb.append(id(xb))
+            m_ = min(len(ea), len(eb))
+            nested = []
+            for xa in t.get_ancestors(nodes[ia]):
+                t.is_ancestor(nodes[ib], xa), t.get_depth(nodes[ib]), list(t.get_ancestors(nodes[ib]))
+                nested.append(id(xa))
+            ctx.evaluations += 2
+            ctx.count("interleaved_ancestor_chains")
+            if ga != ea[: len(ga)] or gb != eb[: len(gb)] or len(ga) != m_ or nested != ea:
+                bad("get_ancestors", "ancestor chains consumed in lock-step / with other queries in between differ from the parent chains", nodes=(ia, ib))
         # query order: a fresh Tree whose first queries are relative ones, then absolute ones (and the first Tree again)
         t3 = Tree(root)
         for i, j in rng.sample(pairs, min(len(pairs), 200)):
